@@ -132,6 +132,20 @@ func c09() int {
 			}
 		}
 	}
+	// look-alike monetaries: assets ending in digits x amounts whose texts concatenate to the same string ("X"+"15" / "X1"+"5")
+	var twins []ledger.Posting
+	for _, d := range []string{"a", "b"} {
+		for _, as := range []string{"X", "X1", "Y/2", "Y/21"} {
+			for _, am := range []int64{1, 5, 15} {
+				twins = append(twins, ledger.NewPosting("world", d, as, big.NewInt(am)))
+			}
+		}
+	}
+	for _, p1 := range twins {
+		for _, p2 := range twins {
+			lists = append(lists, ledger.Postings{p1, p2})
+		}
+	}
 	bals := []*big.Int{big.NewInt(0), big.NewInt(5), big70}
 	ts, _ := ledger.ParseTime("2023-05-06T07:08:09.123456Z")
 	var evals, accepted, rejected int64
@@ -148,6 +162,11 @@ func c09() int {
 						c.Ref = "ref-1"
 						c.TS = ts
 						entry = []string{"v1", "v2"}[li%2]
+					}
+					if variant == 1 && li%3 == 0 {
+						// the same list, bare, as the SECOND element of a bulk whose first element carries metadata, reference and timestamp
+						cb := &c09Case{Postings: lists[li], BalA: ba, BalB: bb}
+						c09One(rep, cb, "bulk-second", &evals, &accepted, &rejected, &samples)
 					}
 					c09One(rep, c, entry, &evals, &accepted, &rejected, &samples)
 				}
@@ -183,6 +202,29 @@ func c09() int {
 func runCreate(eng *engineh.Engine, entry string, c *c09Case) (tx *ledger.Transaction, err error, status int) {
 	data := ledger.TransactionData{Postings: c.Postings, Metadata: c.Meta, Reference: c.Ref, Timestamp: c.TS}
 	switch entry {
+	case "bulk-second":
+		b := recbackend.New("l1")
+		b.Ledgers["l1"].W = eng.Cmd
+		first := map[string]interface{}{"action": "CREATE_TRANSACTION", "data": map[string]interface{}{
+			"postings": ledger.Postings{ledger.NewPosting("world", "z", "X", big.NewInt(1))}, "metadata": metadata.Metadata{"campaign": "x"}, "reference": "first-ref", "timestamp": "2023-01-01T00:00:00Z"}}
+		second := map[string]interface{}{"action": "CREATE_TRANSACTION", "data": map[string]interface{}{"postings": c.Postings}}
+		raw, _ := json.Marshal([]interface{}{first, second})
+		req := httptest.NewRequest("POST", "/api/ledger/v2/l1/_bulk?continueOnFailure=true", strings.NewReader(string(raw))).WithContext(eng.Ctx())
+		w := httptest.NewRecorder()
+		newRouter(b, false).ServeHTTP(w, req)
+		var resp struct {
+			Data []struct {
+				ErrorCode string `json:"errorCode"`
+			} `json:"data"`
+		}
+		_ = json.Unmarshal(w.Body.Bytes(), &resp)
+		if len(resp.Data) != 2 {
+			return nil, fmt.Errorf("bulk answered %d results (http %d)", len(resp.Data), w.Code), w.Code
+		}
+		if resp.Data[1].ErrorCode != "" {
+			return nil, fmt.Errorf("bulk element rejected: %s", resp.Data[1].ErrorCode), w.Code
+		}
+		return nil, nil, w.Code
 	case "commander":
 		tx, err = eng.Cmd.CreateTransaction(eng.Ctx(), command.Parameters{}, ledger.TxToScriptData(data, false))
 		return tx, err, 0
@@ -240,7 +282,11 @@ func c09One(rep *evid.Reporter, c *c09Case, entry string, evals, accepted, rejec
 		if want {
 			rep.Violation(key("rejected"), "a posting list the balances cover was rejected: "+err.Error(), replay)
 		}
-		if len(logs) != before {
+		extra := 0
+		if entry == "bulk-second" {
+			extra = 1
+		}
+		if len(logs) != before+extra {
 			rep.Violation(key("partial"), "rejected request left a log entry", replay)
 		}
 		return
@@ -249,6 +295,9 @@ func c09One(rep *evid.Reporter, c *c09Case, entry string, evals, accepted, rejec
 	if !want {
 		rep.Violation(key("accepted-uncovered"), "accepted although a source cannot cover its posting at its position", replay)
 		return
+	}
+	if entry == "bulk-second" {
+		before++ // the first bulk element
 	}
 	if len(logs) != before+1 {
 		rep.Violation(key("log-count"), fmt.Sprintf("%d log entries were added by one accepted request", len(logs)-before), replay)
